@@ -114,11 +114,17 @@ FACTS = {
         ('same_key_strings_both_ways', 'elementpath/compare.py', 'same_key', 'order', 'if isinstance(k1, (str, AnyURI, UntypedAtomic)): ;; if not isinstance(k2, (str, AnyURI, UntypedAtomic)): ;; return False ;; return str(k1) == str(k2) ;; elif isinstance(k2, (str, AnyURI, UntypedAtomic)): ;; return False'),
         ('same_key_nan', 'elementpath/compare.py', 'same_key', 'order', 'elif isinstance(k1, float) and math.isnan(k1): ;; return isinstance(k2, float) and math.isnan(k2)'),
         ('same_key_qname', 'elementpath/compare.py', 'same_key', 'order', 'elif isinstance(k1, AbstractQName) ^ isinstance(k2, AbstractQName): ;; return False'),
+        ('same_key_boolean', 'elementpath/compare.py', 'same_key', 'order', 'elif isinstance(k1, bool) ^ isinstance(k2, bool): ;; return False'),
         ('same_key_binary_types', 'elementpath/compare.py', 'same_key', 'order', 'elif isinstance(k1, AbstractBinary) and isinstance(k2, AbstractBinary) and (type(k1) is not type(k2)): ;; return False'),
         ('same_key_timezone', 'elementpath/compare.py', 'same_key', 'order', 'elif isinstance(k1, AbstractDateTime) and isinstance(k2, AbstractDateTime) and (k1.tzinfo is None) ^ (k2.tzinfo is None): ;; return False'),
         ('same_key_python_eq_last', 'elementpath/compare.py', 'same_key', 'order', 'try: ;; return True if k1 == k2 else False ;; except TypeError: ;; return False'),
         ('datetime_eq_same_type', 'elementpath/datatypes/datetime.py', 'AbstractDateTime._compare', 'order', 'if op is operator.eq and (not isinstance(other, type(self))) and (not isinstance(self, type(other))): ;; return False'),
-        ('put_by_same_key', 'elementpath/xpath31/_xpath31_functions.py', 'evaluate__map_put', 'order', 'items = {k: v for k, v in map_.items(context) if not same_key(k, key)} ;; items[key] = value'),
+        ('put_by_same_key', 'elementpath/xpath31/_xpath31_functions.py', 'evaluate__map_put', 'order', 'items = [(k, v) for k, v in map_.items(context) if not same_key(k, key)] ;; items.append((key, value))'),
+        ('find_by_same_key', 'elementpath/xpath31/_xpath31_functions.py', 'evaluate__map_find', 'has', 'if same_key(k, key):'),
+        ('merge_boolean_keys', 'elementpath/xpath31/_xpath31_functions.py', 'evaluate__map_merge', 'order', 'if isinstance(k1, bool): ;; k1 = BOOLEAN_KEYS[k1]'),
+        ('map_boolean_keys_constructor', 'elementpath/xpath_tokens/maps.py', 'XPathMap._evaluate', 'order', 'elif isinstance(k, bool): ;; k = BOOLEAN_KEYS[k] ;; if k in _map:'),
+        ('map_boolean_keys_items', 'elementpath/xpath_tokens/maps.py', 'XPathMap.__init__', 'order', 'elif isinstance(k, bool): ;; k = BOOLEAN_KEYS[k] ;; if k in _map:'),
+        ('map_boolean_keys_lookup', 'elementpath/xpath_tokens/maps.py', 'XPathMap.__call__', 'order', 'elif isinstance(key, bool): ;; return _map[BOOLEAN_KEYS[key]]'),
         ('remove_by_same_key', 'elementpath/xpath31/_xpath31_functions.py', 'evaluate__map_remove', 'has', 'if not any((same_key(k, x) for x in keys))'),
         ('contains_by_same_key', 'elementpath/xpath31/_xpath31_functions.py', 'evaluate__map_contains', 'has', 'return any((same_key(k, key) for k in map_.keys(context)))'),
         ('merge_combine_concatenates', 'elementpath/xpath31/_xpath31_functions.py', 'evaluate__map_merge', 'has', '*(v if isinstance(v, list) else [v])]'),
